@@ -66,7 +66,10 @@ def build():
 
 
 def driver_has_cli():
-    p = subprocess.run([common.DRIVER], input="cli defaults - - 0\n", capture_output=True, text=True)
+    try:
+        p = subprocess.run([common.DRIVER], input="cli defaults - - 0\n", capture_output=True, text=True, timeout=60)
+    except Exception:
+        return False
     return p.stdout.startswith("out_dir_root=")
 
 
